@@ -206,10 +206,12 @@ def gen(rng, tier):
                             if proto == "h1.keepalive2":
                                 first = h1.build_request(b"GET", b"/t0", [(b"Host", b"h")])
                                 client.append(["feed", first])
-                            client.append(["feed", req])
+                            behind = rng.random() < 0.3
+                            # (a further request already waiting behind the failing one: the connection's reader is parked on it)
+                            client.append(["feed", req + (b"GET /behind HTTP/1.1\r\nHost: h\r\n\r\n" if behind else b"")])
                             client.append(["settle"])
                             yield {
-                                "family": proto + "." + kind, "backends": ["asyncio", "trio"] if kind != "cancel" else ["asyncio"],
+                                "family": proto + "." + kind + (".pipelined-behind" if behind else ""), "backends": ["asyncio", "trio"] if kind != "cancel" else ["asyncio"],
                                 "config": {"keep_alive_timeout": 5000}, "conn": {},
                                 "apps": {"default": [["recv_until_end"], ["respond", 200, [(b"content-length", b"2")], b"ok"]], "by_tag": by_tag},
                                 "client": client,
@@ -494,6 +496,9 @@ def check(case, obs, tally):
             elif not closed:
                 out.append({"clause": "truncated", "sig": "C05.not-terminated/h1/%s/%s" % (t["framing"], kind),
                             "detail": "crash mid-response, response truncated but connection still open at quiescence"})
+            elif obs.handler != "ok":
+                out.append({"clause": "truncated", "sig": "C05.not-terminated/h1/handler-left-behind/%s" % kind,
+                            "detail": "crash mid-response, the connection was closed but its handler never finished: handler=%s tasks_left=%r" % (obs.handler, obs.tasks_left)})
     elif t["proto"] == "h2":
         started, sent, completed = t["progress"]
         rx = obs.reactor
